@@ -40,9 +40,11 @@ class C13(Check):
               "predicate decides whether a computed coefficient is frozen",
         "N3": "frozen values = plain parameters + every static parameter/derived taken from the single pass; queries recompute exactly the dynamic order",
         "N4": "derived parameters / derived variables partition the derived quantities by complementary membership in the frozen-value table",
+        "N6": "the parameter record that simulations store per segment and results re-apply (get_parameter_values) contains exactly the "
+              "plain parameters: re-applying it with update_parameters must not replace an initial assignment by its number",
         "N5": "a Simulator without explicit y0 starts from model.get_initial_conditions()",
     }
-    floors = {"N1": 6, "N2": 6, "N3": 3, "N4": 2, "N5": 1}
+    floors = {"N1": 6, "N2": 6, "N3": 3, "N4": 2, "N5": 1, "N6": 2}
     decided = [
         "initial assignments are evaluated once, at time zero, after everything they name (sorter order), from the declared initial state",
         "a derived quantity is a derived parameter exactly when every argument is (transitively) a parameter; such values are frozen, all others recomputed per state",
@@ -191,8 +193,28 @@ class C13(Check):
             self.violated("N5", SIM, "Simulator.__init__", "default-y0", y[0] if y else init, "default start state is not model.get_initial_conditions()",
                           witness="Simulator(model).y0 ignores initial assignments")
 
+        # ---------------- N6
+        gpv = mod.func("Model.get_parameter_values")
+        r = [x for x in walk_no_nested(gpv) if isinstance(x, ast.Return)][-1]
+        t = norm(r.value)
+        if t in ("dict(cache.base_parameter_values)", "cache.base_parameter_values.copy()", "cache.base_parameter_values", "{**cache.base_parameter_values}"):
+            self.holds("N6", MOD, "Model.get_parameter_values", "plain-parameters-only", r, "returns (a copy of) the plain parameter values; assignment-defined parameters are not in the record")
+        else:
+            self.violated("N6", MOD, "Model.get_parameter_values", "plain-parameters-only", r,
+                          f"`{t[:80]}` is not the table of plain parameter values: if it includes parameters defined by an initial assignment, the record "
+                          "that Simulation re-applies with update_parameters overwrites the assignment with a number",
+                          witness="k = InitialAssignment(f(k0)); simulate; read result.fluxes; update_parameter('k0', ..): k no longer follows k0")
+        base = a.get("base_parameter_values", [None])[0]
+        simh = self.prog.module(SIM).func("Simulator._handle_simulation_results")
+        rec = [c for c in ast.walk(simh) if isinstance(c, ast.Call) and norm(c.func) == "self.simulation_parameters.append"]
+        if rec and norm(rec[0].args[0]) == "self.model.get_parameter_values()":
+            self.holds("N6", SIM, "Simulator._handle_simulation_results", "segment-record-source", rec[0], "each segment records model.get_parameter_values()")
+        else:
+            self.violated("N6", SIM, "Simulator._handle_simulation_results", "segment-record-source", rec[0] if rec else simh, "the per-segment parameter record is not model.get_parameter_values()")
+
     def must_fire(self):
         return [
+            Variant("parameter-values-include-assignments", MOD, "Model.get_parameter_values", "return dict(cache.base_parameter_values)", "return {k: cache.all_parameter_values[k] for k in self._parameters}", expect="N6|", quick=True),
             Variant("time-one", MOD, CC, "{'time': 0.0}", "{'time': 1.0}", expect="N1|", quick=True),
             Variant("any-instead-of-all", MOD, CC, "if all((i in all_parameter_names for i in derived.args)):", "if any((i in all_parameter_names for i in derived.args)):", expect="N2|", quick=True),
             Variant("classify-in-declaration-order", MOD, CC, "    static_order = []\n    dyn_order = []\n    for name in order:", "    static_order = []\n    dyn_order = []\n    for name in to_sort:", expect="N2|", quick=True),
